@@ -4,7 +4,7 @@ PROPS[pid]["rules"] = [(rule id, floor of decided instances, selector over insta
 Floors are the numbers counted on the tree the rules were written against: a rule that suddenly
 matches fewer sites is a broken check (exit 2), never a silent pass.
 """
-from . import tr, di, ug, em, wt, mf, lp, wc, mk, nc, lt, td, pm, hs, ws, tf, ec, se, bb, lc, cm, vt, bt, sr, le, wf, dp, dt, he, gl, ts, ee, sl, wp, fs, ic, nb, im, rn, mp, sp, ms, cp, sh, st, rh, vo, wi, law, cn, pr, dtr, sa, vx, fd, uv, tx, df
+from . import tr, di, ug, em, wt, mf, lp, wc, mk, nc, lt, td, pm, hs, ws, tf, ec, se, bb, lc, cm, vt, bt, sr, le, wf, dp, dt, he, gl, ts, ee, sl, wp, fs, ic, nb, im, rn, mp, sp, ms, cp, sh, st, rh, vo, wi, law, cn, pr, dtr, sa, vx, fd, uv, tx, df, dn
 
 
 def has(*subs):
@@ -85,6 +85,7 @@ RULES = {
     "UV": {"run": uv.run},
     "TX": {"run": tx.run},
     "DF": {"run": df.run},
+    "DN": {"run": dn.run},
 }
 
 BDD_T = ("BddNode", "BddPtr")
@@ -131,7 +132,7 @@ PROPS = {
     },
     "C06": {
         "level": "other",
-        "rules": [("DI", 0, None), ("WC", 2, has("watch-tables")), ("DF", 1, has("UnitPropagate", "VarOrder", "label-tables")), ("CP", 4, has("decision_nnf::")), ("TS", 7, has("TS-BAL")), ("DP", 3, has("topdown")),
+        "rules": [("DN", 1, None), ("DI", 0, None), ("WC", 2, has("watch-tables")), ("DF", 1, has("UnitPropagate", "VarOrder", "label-tables")), ("CP", 4, has("decision_nnf::")), ("TS", 7, has("TS-BAL")), ("DP", 3, has("topdown")),
                   ("GL", 3, has("component-cache", "topdown_h:GL11")), ("SP", 10, has("SP1")),
                   ("GL", 1, has("GL3:return-found")), ("RH", 1, has("grow:rehome")),
                   ("SH", 6, has("decision_nnf::")), ("RN", 3, has("RN4")),
@@ -182,7 +183,7 @@ PROPS = {
     },
     "C11": {
         "level": "other",
-        "rules": [("DI", 0, None), ("WC", 4, has("hash-memo")), ("DF", 1, has("WmcParams", "label-tables")), ("TR", 0, has("semantic", "backing_store")), ("CM", 3, has("compress:CM")), ("CP", 4, has("cached_semantic_hash:sign", "check_cached_hash_and_neg")), ("IM", 3, has("IM5:semantic_hash")),
+        "rules": [("GL", 1, has("component-cache")), ("DN", 1, None), ("DI", 0, None), ("WC", 4, has("hash-memo")), ("DF", 1, has("WmcParams", "label-tables")), ("TR", 0, has("semantic", "backing_store")), ("CM", 3, has("compress:CM")), ("CP", 4, has("cached_semantic_hash:sign", "check_cached_hash_and_neg")), ("IM", 3, has("IM5:semantic_hash")),
                   ("NB", 33, None), ("IC", 4, has("create_semantic_hash_map")), ("GL", 6, has("GL7", "GL3:return-found")), ("WC", 2, has("sdd-apply-cache")), ("RH", 1, has("grow:rehome")),
                   ("CP", 3, has("decision_nnf::builder::DecisionNNFBuilder::cond_helper")), ("SE", 11, None), ("WC", 6, has("sdd-node"))],
         "explanation": "Hash values follow the pointer's sign (complemented -> negate(hash of the regular pointer)) and a node "
